@@ -208,6 +208,7 @@ func TestVerif_C29(t *testing.T) {
 	vfC29ReadVsShrink(rec)
 	vfC29ReplacedUnderHandle(rec)
 	vfC29ReaderInsideMutation(rec)
+	vfC29SamePathLookups(rec)
 	eps := evid.Pick(90, 12000)
 	for ep := 0; ep < eps && rec.Violations() < 20 && !vfC29Hung; ep++ {
 		vfC29Episode(rec, ep)
@@ -938,7 +939,7 @@ func vfC29Fills(rec *evid.Rec) {
 		dh, eh := look(root, "d"), look(root, "e")
 		oldh := uint64(0)
 		handleReader := sc.reader == "GETATTR-existing" || sc.reader == "ACCESS-existing" || sc.reader == "READ-existing"
-		if sc.mutator == "WRITE" || sc.mutator == "SETATTR-size" || handleReader {
+		if sc.mutator == "WRITE" || sc.mutator == "SETATTR-size" || handleReader || sc.evict {
 			oldh = look(dh, "old")
 			srv.nfs.attrCache.Invalidate("/d/old") // the reader below must fill the cache itself
 		}
@@ -1065,6 +1066,27 @@ func vfC29Fills(rec *evid.Rec) {
 		}
 		// fresh reads after both have completed must show the backend's state
 		outcome := "fresh"
+		if sc.evict {
+			// the quiescent state itself, before any further request touches the one-entry cache (a
+			// LOOKUP asks for the directory first, which pushes the entry under examination out)
+			vfC29Audit(rec, srv, "fill-race", map[string]any{"scenario": desc, "when": "right after the reader returned"})
+		}
+		if sc.evict && oldh != 0 {
+			// first through the handle: GETATTR asks the attribute cache for this very path and nothing
+			// else (a LOOKUP also asks for the directory, which in a one-entry cache pushes the entry
+			// under examination out before it is read)
+			g, _ := c.getattr(oldh)
+			be, exists := fs.Peek("/d/old")
+			switch {
+			case g == nil:
+			case exists != (g.Status == 0):
+				outcome = "stale"
+				rec.Violate("C29/fill-race/stale-attributes-cached-after-"+sc.mutator, fmt.Sprintf("%s: GETATTR through the handle afterwards answers status %d, the object exists: %v", desc, g.Status, exists), nil)
+			case exists && be.Kind == refs.KFile && g.Attr.Size != uint64(be.Size):
+				outcome = "stale"
+				rec.Violate("C29/fill-race/stale-attributes-cached-after-"+sc.mutator, fmt.Sprintf("%s: GETATTR afterwards reports size %d, the file has %d bytes", desc, g.Attr.Size, be.Size), nil)
+			}
+		}
 		if sc.reader == "READDIR" {
 			r, _ := c.readdir(dh, 0, 65536)
 			var got []string
@@ -1573,3 +1595,100 @@ func vfC29ReaderInsideMutation(rec *evid.Rec) {
 		}
 	}
 }
+
+// vfC29SamePathLookups: several clients LOOKUP the same name at the same moment while the path has
+// no handle yet (they are held together after their backend lstat, just before the handle is
+// allocated). Every serial order gives all of them the same handle.
+func vfC29SamePathLookups(rec *evid.Rec) {
+	fs := refs.New()
+	fs.PlantDir("/s", 0777, 0, 0)
+	srv, err := vfNewSrv(fs, ExportOptions{AttrCacheTimeout: 1, Log: &LogConfig{Level: "debug", Output: "/dev/null", LogOperations: true}})
+	if err != nil {
+		rec.Infra(err.Error())
+		return
+	}
+	defer srv.Close()
+	// the server reports every LOOKUP to its structured logger when the operation is over, just
+	// before the handler allocates the handle: that report is where the clients are held together
+	bl := &vfBarrierLogger{}
+	srv.nfs.SetLogger(bl)
+	c := srv.client()
+	root, _ := c.mnt("/")
+	dl, _ := c.lookup(root, "s")
+	if dl == nil || dl.Status != 0 {
+		rec.Infra("lookup /s")
+		return
+	}
+	dh := vfFH(dl.FH)
+	const k = 4
+	rounds := evid.Pick(250, 5000)
+	differing := 0
+	for r := 0; r < rounds && differing == 0; r++ {
+		name := fmt.Sprintf("f%d", r)
+		fs.PlantFile("/s/"+name, []byte("x"), 0666, 0, 0)
+		bl.arm(k)
+		got := make([]uint64, k)
+		var wg sync.WaitGroup
+		for i := 0; i < k; i++ {
+			wg.Add(1)
+			go func(i int) {
+				defer wg.Done()
+				if l, _ := srv.client().lookup(dh, name); l != nil && l.Status == 0 {
+					got[i] = vfFH(l.FH)
+				}
+			}(i)
+		}
+		wg.Wait()
+		bl.arm(0)
+		rec.Eval(k)
+		for i := 1; i < k; i++ {
+			if got[i] != 0 && got[0] != 0 && got[i] != got[0] {
+				differing++
+				rec.Violate("C29/concurrent-lookups-of-one-name-return-different-handles", fmt.Sprintf("round %d: %d clients looked up /s/%s at the same moment and were given the handles %v; every serial order gives them one handle", r, k, name, got), map[string]any{"round": r})
+				break
+			}
+		}
+	}
+	rec.Distinct(fmt.Sprintf("same-path-lookups|differing=%v", differing > 0))
+	vfC29Audit(rec, srv, "same-path-lookups", nil)
+}
+
+// vfBarrierLogger holds the callers of Debug("LOOKUP operation") together until n of them have
+// arrived (or 50 ms have passed); disarmed (n = 0) it is a no-op logger.
+type vfBarrierLogger struct {
+	mu      sync.Mutex
+	n       int
+	arrived int
+	release chan struct{}
+}
+
+func (l *vfBarrierLogger) arm(n int) {
+	l.mu.Lock()
+	l.n, l.arrived, l.release = n, 0, make(chan struct{})
+	l.mu.Unlock()
+}
+
+func (l *vfBarrierLogger) Debug(msg string, fields ...LogField) {
+	if msg != "LOOKUP operation" {
+		return
+	}
+	l.mu.Lock()
+	if l.n == 0 {
+		l.mu.Unlock()
+		return
+	}
+	l.arrived++
+	rel := l.release
+	if l.arrived == l.n {
+		close(rel)
+		l.n = 0
+	}
+	l.mu.Unlock()
+	select {
+	case <-rel:
+	case <-time.After(50 * time.Millisecond):
+	}
+}
+func (l *vfBarrierLogger) Info(msg string, fields ...LogField)  {}
+func (l *vfBarrierLogger) Warn(msg string, fields ...LogField)  {}
+func (l *vfBarrierLogger) Error(msg string, fields ...LogField) {}
